@@ -21,19 +21,19 @@ type txOpener struct {
 	rbIdx int // result position of the rollback function, -1 if none
 }
 
-var (
-	openerMu    sync.Mutex
-	openerCache = map[*kit.Prog]map[*kit.Func]*txOpener{}
-)
+type openerCache struct {
+	once sync.Once
+	m    map[*kit.Func]*txOpener
+}
 
 func txOpeners(p *kit.Prog) map[*kit.Func]*txOpener {
-	openerMu.Lock()
-	defer openerMu.Unlock()
-	if m, ok := openerCache[p]; ok {
-		return m
-	}
+	oc := p.Aux("props.txOpeners", func() any { return &openerCache{} }).(*openerCache)
+	oc.once.Do(func() { oc.m = computeTxOpeners(p) })
+	return oc.m
+}
+
+func computeTxOpeners(p *kit.Prog) map[*kit.Func]*txOpener {
 	out := map[*kit.Func]*txOpener{}
-	openerCache[p] = out
 	for _, f := range p.Funcs("store") {
 		if f.Decl == nil || f.Body == nil || f.Type.Results == nil {
 			continue
